@@ -7,12 +7,21 @@
 set -u
 PATCH="$(realpath "$1")"; shift
 EVAL="${VERIF_EVAL_DIR:-/tmp/veval}"
+REPO=/repo
+# MUTANT_PRIVATE=1: patch a private checkout of /repo's HEAD (/tmp/mrepo) instead of /repo itself and
+# run from a second scratch copy: for long regression sweeps that must not block /repo
+if [ -n "${MUTANT_PRIVATE:-}" ]; then
+  EVAL=/tmp/veval_priv; REPO=/tmp/mrepo
+  [ -d "$REPO" ] || git -C /repo worktree add -q --detach "$REPO" HEAD
+  git -C "$REPO" checkout -q --detach "$(git -C /repo rev-parse HEAD)"; git -C "$REPO" checkout -- .
+fi
 mkdir -p "$EVAL"
-rsync -a --delete --exclude '/harness/target' --exclude '/fuzz/target' --exclude '/.git' --exclude '/replays/C*/' /verif/ "$EVAL/"
-cd /repo || exit 2
+rsync -a --delete --exclude '/harness/target' --exclude '/fuzz/target' --exclude '/.git' --exclude '/replays/C*/' "${VERIF_SRC:-/verif}/" "$EVAL/"
+[ -n "${MUTANT_PRIVATE:-}" ] && sed -i "s#path = \"/repo\"#path = \"$REPO\"#" "$EVAL/harness/Cargo.toml"
+cd "$REPO" || exit 2
 if ! git diff --quiet; then echo "/repo has uncommitted changes" >&2; exit 2; fi
 if ! git apply "$PATCH"; then echo "patch does not apply" >&2; exit 2; fi
-trap 'git -C /repo checkout -- . ' EXIT
+trap 'git -C "$REPO" checkout -- . ' EXIT
 for id in "$@"; do
   out="$(cd "$EVAL" && VERIF_SEED=${VERIF_SEED:-0} ./check "$id" "${VERIF_TIER_MUT:-quick}" 2>&1)"; code=$?
   echo "$id exit=$code $(echo "$out" | grep -m1 -A2 '^VIOLATION' | tr '\n' ' ' | cut -c1-300)"
